@@ -733,14 +733,6 @@ Proof.
   apply read_reset_all, targets_valid.
 Qed.
 
-(** run a sequence of updates *)
-Fixpoint updates (m : emodel) (xs : list (list Qc)) (st : est) : option est :=
-  match xs with
-  | [] => Some st
-  | x :: xs' => match update m x st with Some st' => updates m xs' st' | None => None end
-  end.
-Definition vsum (n : nat) (xs : list (list Qc)) : list Qc := fold_left vadd xs (repeat 0 n).
-
 Lemma get_updates bias_sd noise bias_walk sm_sd m xs : 
   build bias_sd noise bias_walk sm_sd = Some m ->
   forall st st' g, get_estimates m st = Some g -> updates m xs st = Some st' ->
@@ -769,4 +761,1014 @@ Lemma updates_defined bias_sd noise bias_walk sm_sd m xs st :
 Proof.
   intros Hb Hf. revert st. induction Hf as [|x xs Hx Hf IH]; intro st; cbn; [eauto|].
   rewrite (update_spec _ _ _ _ _ _ _ Hb), Hx, Nat.eqb_refl. apply IH.
+Qed.
+
+(* ------------------------------------------------------------------ *)
+(** * Layout: dimensions and entries *)
+
+Lemma filter_length_le' {A} (p : A -> bool) l : (List.length (filter p l) <= List.length l)%nat.
+Proof. induction l as [|x l IH]; cbn; [lia|]. destruct (p x); cbn; lia. Qed.
+
+Lemma pairs9_length : List.length pairs9 = 9%nat.
+Proof. reflexivity. Qed.
+
+Lemma layout_dimensions bias_sd noise bias_walk sm_sd m :
+  build bias_sd noise bias_walk sm_sd = Some m ->
+  List.length (states m) = n_states m /\ List.length (P m) = n_states m /\
+  List.length (q m) = n_noises m /\ List.length (v m) = n_output_noises m /\
+  List.length (G m) = n_noises m /\ List.length (J m) = n_output_noises m /\
+  (n_states m <= 12)%nat /\ (n_noises m <= 3)%nat /\ (n_output_noises m <= 3)%nat /\
+  (n_noises m <= n_states m)%nat.
+Proof.
+  intro Hb. destruct (build_spec _ _ _ _ _ Hb) as (Hst & Hns & Hnn & Hno & HP & Hq & Hv & HG & HH & HJ & Hsm).
+  rewrite Hst, HP, Hq, Hv, HG, HJ, Hns, Hnn, Hno.
+  rewrite !app_length, !indexed_length, !map_length.
+  pose proof (filter_length_le' (fun a => Qcpos (get3 a bias_sd)) (seq 0 3)) as H1.
+  pose proof (filter_length_le' (fun a => Qcpos (get3 a bias_walk)) (enb bias_sd)) as H2.
+  pose proof (filter_length_le' (fun a => Qcpos (get3 a noise)) (seq 0 3)) as H3.
+  pose proof (filter_length_le' (fun oi => Qcpos (get33 (fst oi) (snd oi) sm_sd)) pairs9) as H4.
+  rewrite seq_length in H1, H3. rewrite pairs9_length in H4.
+  fold (enb bias_sd) in H1. fold (enw bias_sd bias_walk) in H2. fold (enn noise) in H3. fold (ensm sm_sd) in H4.
+  repeat split; lia.
+Qed.
+
+Lemma dense_shape rows cols l :
+  List.length (dense rows cols l) = rows /\
+  Forall (fun r => List.length r = cols) (dense rows cols l).
+Proof.
+  unfold dense. rewrite map_length, seq_length. split; [reflexivity|].
+  apply Forall_forall. intros r Hr. apply in_map_iff in Hr. destruct Hr as (x & <- & _).
+  now rewrite map_length, seq_length.
+Qed.
+
+(** shapes of the dense matrices: G n_states x n_noises, H 3 x n_states, J 3 x n_output_noises,
+    P and F n_states x n_states; F is zero, P is diagonal *)
+Lemma matrix_shapes bias_sd noise bias_walk sm_sd m :
+  build bias_sd noise bias_walk sm_sd = Some m ->
+  (List.length (G_dense m) = n_states m /\ Forall (fun r => List.length r = n_noises m) (G_dense m)) /\
+  (List.length (H_dense m) = 3%nat /\ Forall (fun r => List.length r = n_states m) (H_dense m)) /\
+  (List.length (J_dense m) = 3%nat /\ Forall (fun r => List.length r = n_output_noises m) (J_dense m)) /\
+  (List.length (P_dense m) = n_states m /\ Forall (fun r => List.length r = n_states m) (P_dense m)) /\
+  (List.length (F_dense m) = n_states m /\ Forall (fun r => List.length r = n_states m) (F_dense m)) /\
+  Forall (Forall (fun x => x = 0)) (F_dense m).
+Proof.
+  intro Hb. destruct (layout_dimensions _ _ _ _ _ Hb) as (_ & HP & _).
+  repeat split; try apply dense_shape.
+  - unfold P_dense, diag. now rewrite map_length, seq_length.
+  - unfold P_dense, diag. apply Forall_forall. intros r Hr. apply in_map_iff in Hr.
+    destruct Hr as (x & <- & _). now rewrite map_length, seq_length.
+  - unfold F_dense. now rewrite map_length, seq_length.
+  - unfold F_dense. apply Forall_forall. intros r Hr. apply in_map_iff in Hr.
+    destruct Hr as (x & <- & _). now rewrite map_length, seq_length.
+  - unfold F_dense. apply Forall_forall. intros r Hr. apply in_map_iff in Hr.
+    destruct Hr as (x & <- & _). apply Forall_forall. intros y Hy. apply in_map_iff in Hy.
+    now destruct Hy as (z & <- & _).
+Qed.
+
+(** enabled lists: membership *)
+Lemma enb_In bias_sd a : In a (enb bias_sd) <-> (a < 3)%nat /\ 0 < get3 a bias_sd.
+Proof. unfold enb. rewrite filter_In, in_seq, Qcpos_spec. intuition lia. Qed.
+
+Lemma enw_In bias_sd bias_walk a :
+  In a (enw bias_sd bias_walk) <-> (a < 3)%nat /\ 0 < get3 a bias_sd /\ 0 < get3 a bias_walk.
+Proof. unfold enw. rewrite filter_In, enb_In, Qcpos_spec. tauto. Qed.
+
+Lemma enn_In noise a : In a (enn noise) <-> (a < 3)%nat /\ 0 < get3 a noise.
+Proof. unfold enn. rewrite filter_In, in_seq, Qcpos_spec. intuition lia. Qed.
+
+Lemma ensm_In sm_sd o i : In (o, i) (ensm sm_sd) <-> (o < 3 /\ i < 3)%nat /\ 0 < get33 o i sm_sd.
+Proof. unfold ensm. rewrite filter_In, in_pairs9, Qcpos_spec. cbn [fst snd]. tauto. Qed.
+
+(** position of an enabled axis among the enabled ones *)
+Lemma nth_error_filter_seq (p : nat -> bool) n a :
+  (a < n)%nat -> p a = true ->
+  nth_error (filter p (seq 0 n)) (List.length (filter p (seq 0 a))) = Some a.
+Proof.
+  induction n as [|n IH]; intros Ha Hp; [lia|].
+  rewrite filter_seq_S. destruct (Nat.eq_dec a n) as [->|Hne].
+  - rewrite Hp, nth_error_app2 by lia. rewrite Nat.sub_diag. reflexivity.
+  - rewrite nth_error_app1; [apply IH; [lia|exact Hp]|].
+    assert (Hs : seq 0 n = seq 0 a ++ seq a (n - a)).
+    { replace n with (a + (n - a))%nat at 1 by lia. apply seq_app. }
+    rewrite Hs, filter_app, app_length.
+    destruct (n - a)%nat as [|d] eqn:Ed; [lia|]. cbn [seq filter]. rewrite Hp. cbn. lia.
+Qed.
+
+Lemma bias_rank_nth bias_sd a :
+  In a (enb bias_sd) -> nth_error (enb bias_sd) (bias_rank bias_sd a) = Some a.
+Proof.
+  intro Hin. unfold enb in *. apply filter_In in Hin. destruct Hin as [Hs Hp]. apply in_seq in Hs.
+  unfold bias_rank. apply nth_error_filter_seq; [lia|exact Hp].
+Qed.
+
+Lemma enw_incl_enb bias_sd bias_walk a : In a (enw bias_sd bias_walk) -> In a (enb bias_sd).
+Proof. unfold enw. rewrite filter_In. tauto. Qed.
+
+Lemma bias_state_position bias_sd noise bias_walk sm_sd m a :
+  build bias_sd noise bias_walk sm_sd = Some m -> In a (enb bias_sd) ->
+  nth_error (states m) (bias_rank bias_sd a) = Some (bias_name a).
+Proof.
+  intros Hb Hin. rewrite <- (H_positions _ _ _ _ _ a _ Hb).
+  destruct (build_spec _ _ _ _ _ Hb) as (_ & _ & _ & _ & _ & _ & _ & _ & HH & _).
+  rewrite HH, In_indexed, Nat.sub_0_r. split; [lia|now apply bias_rank_nth].
+Qed.
+
+(** G: one unit entry per walking bias, in the row of that bias state; q lists the walk
+    intensities in the same column order *)
+Lemma G_entries bias_sd noise bias_walk sm_sd m :
+  build bias_sd noise bias_walk sm_sd = Some m ->
+  (forall r c, In (r, c) (G m) <->
+     exists a, nth_error (enw bias_sd bias_walk) c = Some a /\ r = bias_rank bias_sd a) /\
+  (forall r c, In (r, c) (G m) ->
+     exists a, nth_error (states m) r = Some (bias_name a) /\ 0 < get3 a bias_walk /\
+               nth_error (q m) c = Some (get3 a bias_walk) /\ (r < n_states m)%nat /\ (c < n_noises m)%nat) /\
+  q m = map (fun a => get3 a bias_walk) (enw bias_sd bias_walk).
+Proof.
+  intro Hb. destruct (build_spec _ _ _ _ _ Hb) as (_ & Hns & Hnn & _ & _ & Hq & _ & HG & _).
+  assert (H1 : forall r c, In (r, c) (G m) <->
+     exists a, nth_error (enw bias_sd bias_walk) c = Some a /\ r = bias_rank bias_sd a).
+  { intros r c. rewrite HG, In_indexed, Nat.sub_0_r, nth_error_map. split.
+    - intros [_ Hn]. destruct (nth_error (enw bias_sd bias_walk) c) as [a|]; [|discriminate].
+      exists a. cbn in Hn. split; congruence.
+    - intros (a & -> & ->). split; [lia|reflexivity]. }
+  split; [exact H1|]. split; [|exact Hq].
+  intros r c Hin. apply H1 in Hin. destruct Hin as (a & Hn & ->). exists a.
+  pose proof (nth_error_In _ _ Hn) as Hin. pose proof (enw_incl_enb _ _ _ Hin) as Hinb.
+  apply enw_In in Hin. destruct Hin as (Ha & Hbs & Hw).
+  split; [now apply (bias_state_position _ _ _ _ _ _ Hb)|]. split; [exact Hw|].
+  split; [rewrite Hq, nth_error_map, Hn; reflexivity|].
+  split.
+  - assert (X : (bias_rank bias_sd a < List.length (enb bias_sd))%nat)
+      by (apply nth_error_Some; rewrite (bias_rank_nth _ _ Hinb); discriminate). lia.
+  - rewrite Hnn. apply nth_error_Some. congruence.
+Qed.
+
+(** J: one unit entry per noisy axis, columns in axis order; v lists the intensities *)
+Lemma J_entries bias_sd noise bias_walk sm_sd m :
+  build bias_sd noise bias_walk sm_sd = Some m ->
+  (forall a c, In (a, c) (J m) <-> nth_error (enn noise) c = Some a) /\
+  (forall a c, In (a, c) (J m) ->
+     (a < 3)%nat /\ 0 < get3 a noise /\ nth_error (v m) c = Some (get3 a noise) /\ (c < n_output_noises m)%nat) /\
+  v m = map (fun a => get3 a noise) (enn noise).
+Proof.
+  intro Hb. destruct (build_spec _ _ _ _ _ Hb) as (_ & _ & _ & Hno & _ & _ & Hv & _ & _ & HJ & _).
+  assert (H1 : forall a c, In (a, c) (J m) <-> nth_error (enn noise) c = Some a).
+  { intros a c. rewrite HJ, In_indexed, Nat.sub_0_r. split; [tauto|]. intro; split; [lia|assumption]. }
+  split; [exact H1|]. split; [|exact Hv].
+  intros a c Hin. apply H1 in Hin. pose proof (nth_error_In _ _ Hin) as Hi. apply enn_In in Hi.
+  destruct Hi as [Ha Hn]. repeat split; try assumption.
+  - rewrite Hv, nth_error_map, Hin. reflexivity.
+  - rewrite Hno. apply nth_error_Some. congruence.
+Qed.
+
+(** H: a unit at (axis, state) exactly for the bias state of that axis *)
+Lemma H_entries bias_sd noise bias_walk sm_sd m :
+  build bias_sd noise bias_walk sm_sd = Some m ->
+  (forall a s, In (a, s) (H m) <-> nth_error (states m) s = Some (bias_name a)) /\
+  (forall a s, In (a, s) (H m) -> (a < 3)%nat /\ 0 < get3 a bias_sd /\ (s < n_states m)%nat).
+Proof.
+  intro Hb. split; [intros a s; now apply (H_positions _ _ _ _ _ a s Hb)|].
+  intros a s Hin. destruct (build_spec _ _ _ _ _ Hb) as (_ & Hns & _ & _ & _ & _ & _ & _ & HH & _).
+  rewrite HH, In_indexed, Nat.sub_0_r in Hin. destruct Hin as [_ Hn].
+  pose proof (nth_error_In _ _ Hn) as Hi. apply enb_In in Hi. destruct Hi as [Ha Hp].
+  repeat split; try assumption. rewrite Hns.
+  assert (s < List.length (enb bias_sd))%nat by (apply nth_error_Some; congruence). lia.
+Qed.
+
+(** P: the initial variance of every state is the squared sd of the term it was created for *)
+Lemma P_entries bias_sd noise bias_walk sm_sd m :
+  build bias_sd noise bias_walk sm_sd = Some m ->
+  P m = map (sd_sq bias_sd sm_sd) (targets bias_sd sm_sd) /\
+  Forall (fun x => 0 < x) (P m).
+Proof.
+  intro Hb. destruct (build_spec _ _ _ _ _ Hb) as (_ & _ & _ & _ & HP & _).
+  assert (E : P m = map (sd_sq bias_sd sm_sd) (targets bias_sd sm_sd)).
+  { rewrite HP. unfold targets. rewrite map_app, !map_map. reflexivity. }
+  split; [exact E|]. rewrite E. apply Forall_forall. intros x Hx. apply in_map_iff in Hx.
+  destruct Hx as (t & <- & Ht). unfold targets in Ht. apply in_app_or in Ht.
+  assert (Hsq : forall y, 0 < y -> 0 < sq y).
+  { intros y Hy. unfold sq. replace 0 with (0 * y) by ring. apply Qcmult_lt_compat_r; assumption. }
+  destruct Ht as [Ht|Ht]; apply in_map_iff in Ht; destruct Ht as (z & <- & Hz); cbn.
+  - apply enb_In in Hz. apply Hsq. tauto.
+  - destruct z as [o i]. apply ensm_In in Hz. apply Hsq. tauto.
+Qed.
+
+(** order: state k is the k-th enabled term in the fixed order
+    bias x, y, z, then sm xx, xy, xz, yx, ..., zz (row-major = sm_<out><in>) *)
+Lemma states_order bias_sd noise bias_walk sm_sd m :
+  build bias_sd noise bias_walk sm_sd = Some m ->
+  states m = map name_of (targets bias_sd sm_sd) /\
+  targets bias_sd sm_sd = filter (target_en bias_sd sm_sd) all_targets /\
+  StronglySorted lt (map key (targets bias_sd sm_sd)) /\
+  Forall valid_target (targets bias_sd sm_sd).
+Proof.
+  intro Hb. split; [now apply (states_targets _ _ _ _ _ Hb)|].
+  split; [apply targets_filter|]. split; [apply targets_sorted|apply targets_valid].
+Qed.
+
+Lemma all_targets_names :
+  map name_of all_targets =
+  ["bias_x"; "bias_y"; "bias_z"; "sm_xx"; "sm_xy"; "sm_xz"; "sm_yx"; "sm_yy"; "sm_yz";
+   "sm_zx"; "sm_zy"; "sm_zz"]%string.
+Proof. reflexivity. Qed.
+
+(* ------------------------------------------------------------------ *)
+(** * Names agree with the simulator's data_frame *)
+
+Lemma columns_states bias_sd noise bias_walk sm_sd m p :
+  build bias_sd noise bias_walk sm_sd = Some m ->
+  (forall a, (a < 3)%nat -> col_bias_en p a = Qcpos (get3 a bias_sd)) ->
+  (forall o i, (o < 3)%nat -> (i < 3)%nat -> col_sm_en p (o, i) = Qcpos (get33 o i sm_sd)) ->
+  columns p = states m /\
+  df_row p = state_vector bias_sd sm_sd (p_b p) (msub (p_T p) ident3).
+Proof.
+  intros Hb H1 H2. destruct (build_spec _ _ _ _ _ Hb) as (Hst & _).
+  assert (E1 : filter (col_bias_en p) (seq 0 3) = enb bias_sd).
+  { unfold enb. apply filter_ext_in. intros a Ha. apply in_seq in Ha. apply H1. lia. }
+  assert (E2 : filter (col_sm_en p) pairs9 = ensm sm_sd).
+  { unfold ensm. apply filter_ext_in. intros [o i] Hoi. apply in_pairs9 in Hoi. cbn [fst snd].
+    apply H2; lia. }
+  split.
+  - unfold columns. rewrite Hst, E1, E2. reflexivity.
+  - unfold df_row, df_row_at, state_vector. rewrite E1, E2. f_equal.
+    apply map_ext_in. intros [o i] Hoi. apply ensm_In in Hoi. destruct Hoi as [[Ho Hi] _].
+    cbn [fst snd]. destruct o as [|[|[|o]]]; try lia; destruct i as [|[|[|i]]]; try lia; reflexivity.
+Qed.
+
+(* ------------------------------------------------------------------ *)
+(** * The output matrix times the state vector is the simulated reading error *)
+
+Definition coef (axis : nat) (r : V3 Qc) (t : target) : Qc :=
+  match t with
+  | TBias a => ind (Nat.eqb a axis)
+  | TSm o i => if Nat.eqb o axis then get3 i r else 0
+  end.
+Definition val (b : V3 Qc) (E : M3) (t : target) : Qc :=
+  match t with TBias a => get3 a b | TSm o i => get33 o i E end.
+
+Lemma has_entry_In r c l : has_entry r c l = true <-> In (r, c) l.
+Proof.
+  unfold has_entry. rewrite existsb_exists. split.
+  - intros ([a b] & Hin & He). cbn in He. apply andb_prop in He. destruct He as [H1 H2].
+    apply Nat.eqb_eq in H1, H2. now subst.
+  - intro Hin. exists (r, c). split; [exact Hin|]. cbn. now rewrite !Nat.eqb_refl.
+Qed.
+
+Lemma has_entry_indexed r c L :
+  has_entry r c (indexed 0 L) = match nth_error L c with Some x => Nat.eqb x r | None => false end.
+Proof.
+  apply eq_true_iff_eq. rewrite has_entry_In, In_indexed, Nat.sub_0_r.
+  destruct (nth_error L c) as [x|].
+  - rewrite Nat.eqb_eq. split; [intros [_ E]; congruence|intros ->; split; [lia|reflexivity]].
+  - split; [intros [_ E]; discriminate|discriminate].
+Qed.
+
+Lemma om_entry_spec bias_sd noise bias_walk sm_sd m r axis s t :
+  build bias_sd noise bias_walk sm_sd = Some m ->
+  nth_error (targets bias_sd sm_sd) s = Some t ->
+  om_entry m r axis s = coef axis r t.
+Proof.
+  intros Hb Ht.
+  destruct (build_spec _ _ _ _ _ Hb) as (_ & _ & _ & _ & _ & _ & _ & _ & HH & _ & Hsm).
+  unfold om_entry. rewrite HH, Hsm. rewrite nth_error_targets in Ht.
+  destruct (s <? List.length (enb bias_sd))%nat eqn:El.
+  - apply Nat.ltb_lt in El.
+    rewrite (find_indexed_out (ensm sm_sd) _ s);
+      [|intros e He; apply andb_prop in He; destruct He as [_ He]; now apply Nat.eqb_eq in He|left; exact El].
+    rewrite has_entry_indexed.
+    destruct (nth_error (enb bias_sd) s) as [a|]; [|discriminate]. cbn in Ht. injection Ht as <-.
+    cbn. reflexivity.
+  - apply Nat.ltb_ge in El.
+    destruct (nth_error (ensm sm_sd) (s - List.length (enb bias_sd))) as [[o i]|] eqn:En; [|discriminate].
+    cbn in Ht. injection Ht as <-.
+    assert (Hl : (s - List.length (enb bias_sd) < List.length (ensm sm_sd))%nat)
+      by (apply nth_error_Some; congruence).
+    rewrite (find_indexed_in (ensm sm_sd) _ (s - List.length (enb bias_sd)) (0%nat, 0%nat) _
+               (fun oi => Nat.eqb (fst oi) axis));
+      [|intro e; cbn beta; do 2 f_equal; lia|exact Hl].
+    rewrite (nth_error_nth _ _ (0%nat, 0%nat) En). cbn [fst snd coef].
+    destruct (Nat.eqb o axis); [reflexivity|].
+    rewrite has_entry_indexed.
+    assert (Hn : nth_error (enb bias_sd) s = None) by (now apply nth_error_None).
+    rewrite Hn. reflexivity.
+Qed.
+
+Lemma map_seq_nth {A B} (l : list A) (g : nat -> B) (f : A -> B) k :
+  (forall s t, nth_error l s = Some t -> g (k + s)%nat = f t) ->
+  map g (seq k (List.length l)) = map f l.
+Proof.
+  revert k. induction l as [|x l IH]; intros k Hg; [reflexivity|].
+  cbn [List.length seq map]. f_equal.
+  - rewrite <- (Nat.add_0_r k). apply Hg. reflexivity.
+  - apply IH. intros s t Hs. replace (S k + s)%nat with (k + S s)%nat by lia. apply Hg. exact Hs.
+Qed.
+
+Lemma om_row_spec bias_sd noise bias_walk sm_sd m r axis :
+  build bias_sd noise bias_walk sm_sd = Some m ->
+  om_row m r axis = map (coef axis r) (targets bias_sd sm_sd).
+Proof.
+  intro Hb. unfold om_row. destruct (targets_length _ _ _ _ _ Hb) as [Hl _]. rewrite <- Hl.
+  apply map_seq_nth. intros s t Hs. cbn. now apply (om_entry_spec _ _ _ _ _ _ _ _ _ Hb).
+Qed.
+
+Lemma state_vector_val bias_sd sm_sd b E :
+  state_vector bias_sd sm_sd b E = map (val b E) (targets bias_sd sm_sd).
+Proof. unfold state_vector, targets. rewrite map_app, !map_map. reflexivity. Qed.
+
+Lemma dot_filter {A} (f g : A -> Qc) (p : A -> bool) l :
+  (forall x, In x l -> p x = false -> g x = 0) ->
+  dot (map f (filter p l)) (map g (filter p l)) = dot (map f l) (map g l).
+Proof.
+  induction l as [|x l IH]; intro Hz; [reflexivity|]. cbn [filter map dot].
+  destruct (p x) eqn:Ep.
+  - cbn [map dot]. rewrite IH; [reflexivity|]. intros y Hy. apply Hz. now right.
+  - rewrite IH by (intros y Hy; apply Hz; now right).
+    rewrite (Hz x (or_introl eq_refl) Ep). ring.
+Qed.
+
+Lemma all_targets_list :
+  all_targets = [TBias 0; TBias 1; TBias 2; TSm 0 0; TSm 0 1; TSm 0 2;
+                 TSm 1 0; TSm 1 1; TSm 1 2; TSm 2 0; TSm 2 1; TSm 2 2].
+Proof. reflexivity. Qed.
+
+Lemma all_targets_valid t : In t all_targets <-> valid_target t.
+Proof.
+  split.
+  - rewrite all_targets_list. cbn [In]. intros H; repeat (destruct H as [<-|H]; [cbn; lia|]); contradiction.
+  - rewrite all_targets_list. destruct t as [a|o i]; cbn [valid_target].
+    + intro Ha. destruct a as [|[|[|a]]]; try lia; cbn; tauto.
+    + intros [Ho Hi]. destruct o as [|[|[|o]]]; try lia; destruct i as [|[|[|i]]]; try lia;
+        cbn; tauto.
+Qed.
+
+Lemma val_disabled bias_sd sm_sd b E t :
+  bias_supported bias_sd b -> sm_supported sm_sd E -> valid_target t ->
+  target_en bias_sd sm_sd t = false -> val b E t = 0.
+Proof.
+  intros Hsb Hse Hv Hen. destruct t as [a|o i]; cbn in *.
+  - now apply Hsb.
+  - destruct Hv. now apply Hse.
+Qed.
+
+Lemma dot_all_targets axis r b E :
+  (axis < 3)%nat ->
+  dot (map (coef axis r) all_targets) (map (val b E) all_targets) = get3 axis (add3 (mv3 E r) b).
+Proof.
+  intro Ha. rewrite all_targets_list.
+  destruct b as [b0 b1 b2], E as [[e00 e01 e02] [e10 e11 e12] [e20 e21 e22]], r as [r0 r1 r2].
+  destruct axis as [|[|[|axis]]]; try lia;
+    cbn [map dot coef val Nat.eqb ind get3 get33 add3 mv3 dot3 c0 c1 c2]. all: unfold dot3; cbn [c0 c1 c2]; ring.
+Qed.
+
+(** [output_matrix_is_error] *)
+Lemma output_matrix_state_vector bias_sd noise bias_walk sm_sd m r b E :
+  build bias_sd noise bias_walk sm_sd = Some m ->
+  bias_supported bias_sd b -> sm_supported sm_sd E ->
+  mat_vec (output_matrix m r) (state_vector bias_sd sm_sd b E) = v3_list (add3 (mv3 E r) b).
+Proof.
+  intros Hb Hsb Hse. unfold mat_vec, output_matrix. rewrite map_map. cbn [seq map].
+  rewrite !(om_row_spec _ _ _ _ _ _ _ Hb), state_vector_val, targets_filter.
+  rewrite !dot_filter;
+    try (intros t Ht; apply val_disabled; auto; now apply all_targets_valid).
+  rewrite !dot_all_targets by lia. reflexivity.
+Qed.
+
+Lemma msub_ident_get T o i : (o < 3)%nat -> (i < 3)%nat ->
+  get33 o i (msub T ident3) = get33 o i T - delta o i.
+Proof.
+  intros Ho Hi. destruct o as [|[|[|o]]]; try lia; destruct i as [|[|[|i]]]; try lia; reflexivity.
+Qed.
+
+Lemma sim_error_rate p dt r :
+  sub3 (sim_row p Rate dt r) r = add3 (mv3 (msub (p_T p) ident3) r) (p_b p).
+Proof.
+  destruct p as [[[a b c] [d e f] [g h i]] [b0 b1 b2] n w], r as [x y z].
+  cbn. unfold sub3, add3, mv3, dot3. cbn. f_equal; ring.
+Qed.
+
+Lemma sim_error_increment p dt r :
+  sub3 (sim_row p Increment dt (scale3 r dt)) (scale3 r dt)
+  = scale3 (add3 (mv3 (msub (p_T p) ident3) r) (p_b p)) dt.
+Proof.
+  destruct p as [[[a b c] [d e f] [g h i]] [b0 b1 b2] n w], r as [x y z].
+  cbn. unfold sub3, add3, mv3, dot3, scale3. cbn. f_equal; ring.
+Qed.
+
+Lemma sim_rate_times_dt p dt r :
+  scale3 (sim_row p Rate dt r) dt = sim_row p Increment dt (scale3 r dt).
+Proof.
+  destruct p as [[[a b c] [d e f] [g h i]] [b0 b1 b2] n w], r as [x y z].
+  cbn. unfold add3, mv3, dot3, scale3. cbn. f_equal; ring.
+Qed.
+
+(** H(r) x = simulated noise-free reading error, rate and increment sensors *)
+Lemma output_matrix_is_error bias_sd noise bias_walk sm_sd m p dt r :
+  build bias_sd noise bias_walk sm_sd = Some m ->
+  bias_supported bias_sd (p_b p) -> sm_supported sm_sd (msub (p_T p) ident3) ->
+  let x := state_vector bias_sd sm_sd (p_b p) (msub (p_T p) ident3) in
+  mat_vec (output_matrix m r) x = v3_list (sub3 (sim_row p Rate dt r) r) /\
+  map (fun e => e * dt) (mat_vec (output_matrix m r) x)
+    = v3_list (sub3 (sim_row p Increment dt (scale3 r dt)) (scale3 r dt)).
+Proof.
+  intros Hb Hsb Hse x. unfold x.
+  rewrite (output_matrix_state_vector _ _ _ _ _ r _ _ Hb Hsb Hse).
+  rewrite sim_error_rate, sim_error_increment. split; reflexivity.
+Qed.
+
+(* ------------------------------------------------------------------ *)
+(** * Estimates equal to the parameters; correction undoes the simulated error *)
+
+Lemma solve3_mv3 M x : det3 M <> 0 -> solve3 M (mv3 M x) = Some x.
+Proof.
+  intro Hd. unfold solve3. destruct (Qc_eq_dec (det3 M) 0) as [E|_]; [contradiction|]. f_equal.
+  destruct M as [[a b c] [d e f] [g h i]], x as [x y z].
+  unfold det3 in *. unfold scale3, mv3, adj3, dot3. cbn [c0 c1 c2]. f_equal; field; exact Hd.
+Qed.
+
+Lemma solve3_sound M r x : solve3 M r = Some x -> mv3 M x = r.
+Proof.
+  unfold solve3. destruct (Qc_eq_dec (det3 M) 0) as [E|Hd]; [discriminate|].
+  intro E. injection E as <-.
+  destruct M as [[a b c] [d e f] [g h i]], r as [x y z].
+  unfold det3 in *. unfold scale3, mv3, adj3, dot3. cbn [c0 c1 c2]. f_equal; field; exact Hd.
+Qed.
+
+Lemma correct_sim_row T b dt theta n w :
+  det3 T <> 0 ->
+  correct_increments (mk_est T b) dt (sim_row (mk_params T b n w) Increment dt theta) = Some theta.
+Proof.
+  intro Hd. unfold correct_increments, sim_row. cbn [e_T e_b p_T p_b].
+  replace (sub3 (add3 (mv3 T theta) (scale3 b dt)) (scale3 b dt)) with (mv3 T theta).
+  - now apply solve3_mv3.
+  - destruct (mv3 T theta) as [x y z], b as [b0 b1 b2]. unfold sub3, add3, scale3. cbn [c0 c1 c2].
+    f_equal; ring.
+Qed.
+
+Lemma est_ext st st' :
+  (forall t, valid_target t -> read_target t st = read_target t st') -> st = st'.
+Proof.
+  intro Hr.
+  assert (Hb : forall a, (a < 3)%nat -> get3 a (e_b st) = get3 a (e_b st'))
+    by (intros a Ha; exact (Hr (TBias a) Ha)).
+  assert (HT : forall o i, (o < 3)%nat -> (i < 3)%nat -> get33 o i (e_T st) = get33 o i (e_T st')).
+  { intros o i Ho Hi. pose proof (Hr (TSm o i) (conj Ho Hi)) as E. cbn in E.
+    replace (get33 o i (e_T st)) with (get33 o i (e_T st) - delta o i + delta o i) by ring.
+    rewrite E. ring. }
+  destruct st as [[[a b c] [d e f] [g h i]] [b0 b1 b2]],
+           st' as [[[a' b' c'] [d' e' f'] [g' h' i']] [b0' b1' b2']].
+  cbn [e_T e_b] in *.
+  pose proof (Hb 0%nat ltac:(lia)) as E0. pose proof (Hb 1%nat ltac:(lia)) as E1.
+  pose proof (Hb 2%nat ltac:(lia)) as E2.
+  pose proof (HT 0%nat 0%nat ltac:(lia) ltac:(lia)) as T00.
+  pose proof (HT 0%nat 1%nat ltac:(lia) ltac:(lia)) as T01.
+  pose proof (HT 0%nat 2%nat ltac:(lia) ltac:(lia)) as T02.
+  pose proof (HT 1%nat 0%nat ltac:(lia) ltac:(lia)) as T10.
+  pose proof (HT 1%nat 1%nat ltac:(lia) ltac:(lia)) as T11.
+  pose proof (HT 1%nat 2%nat ltac:(lia) ltac:(lia)) as T12.
+  pose proof (HT 2%nat 0%nat ltac:(lia) ltac:(lia)) as T20.
+  pose proof (HT 2%nat 1%nat ltac:(lia) ltac:(lia)) as T21.
+  pose proof (HT 2%nat 2%nat ltac:(lia) ltac:(lia)) as T22.
+  cbn in *. congruence.
+Qed.
+
+Lemma vadd_zeros xs : vadd (repeat 0 (List.length xs)) xs = xs.
+Proof.
+  induction xs as [|x xs IH]; [reflexivity|]. unfold vadd in *. cbn [List.length repeat combine map fst snd].
+  rewrite IH. f_equal. ring.
+Qed.
+
+Lemma read_mk_est T b t :
+  valid_target t -> read_target t (mk_est T b) = val b (msub T ident3) t.
+Proof.
+  destruct t as [a|o i]; cbn [valid_target read_target val e_T e_b]; [reflexivity|].
+  intros [Ho Hi]. now rewrite msub_ident_get.
+Qed.
+
+(** updating a freshly reset model with the state vector that lists the simulator's
+    parameters makes [transform], [bias] EQUAL to the simulator's *)
+Lemma estimates_equal_parameters bias_sd noise bias_walk sm_sd m T b :
+  build bias_sd noise bias_walk sm_sd = Some m ->
+  bias_supported bias_sd b -> sm_supported sm_sd (msub T ident3) ->
+  update m (state_vector bias_sd sm_sd b (msub T ident3)) reset = Some (mk_est T b).
+Proof.
+  intros Hb Hsb Hse. rewrite (update_spec _ _ _ _ _ _ _ Hb).
+  destruct (targets_length _ _ _ _ _ Hb) as [Hl _].
+  rewrite state_vector_val, map_length, Hl, Nat.eqb_refl. f_equal.
+  set (ts := targets bias_sd sm_sd) in *. set (E := msub T ident3) in *.
+  apply est_ext. intros t Hv. rewrite (read_mk_est _ _ _ Hv). fold E.
+  destruct (in_dec (fun x y : target => ltac:(decide equality; apply Nat.eq_dec) : {x = y} + {x <> y}) t ts)
+    as [Hin|Hnin].
+  - pose proof (read_all_add_all ts (map (val b E) ts) reset (targets_valid _ _) (targets_NoDup _ _)
+                  (map_length _ _)) as Hall.
+    rewrite (read_reset_all ts (targets_valid _ _)) in Hall.
+    rewrite <- (map_length (val b E) ts) in Hall. rewrite vadd_zeros in Hall.
+    rewrite map_ext_in_iff in Hall. now apply Hall.
+  - rewrite (read_add_all_notin t ts _ reset Hv (targets_valid _ _) Hnin), (read_reset _ Hv).
+    symmetry. apply (val_disabled bias_sd sm_sd); auto.
+    destruct (target_en bias_sd sm_sd t) eqn:Een; [|reflexivity]. exfalso. apply Hnin.
+    unfold ts. rewrite targets_filter. apply filter_In. split; [now apply all_targets_valid|exact Een].
+Qed.
+
+(** [correct_undoes_apply], one sample *)
+Lemma correct_undoes_apply bias_sd noise bias_walk sm_sd m p dt theta :
+  build bias_sd noise bias_walk sm_sd = Some m ->
+  bias_supported bias_sd (p_b p) -> sm_supported sm_sd (msub (p_T p) ident3) ->
+  det3 (p_T p) <> 0 ->
+  exists st, update m (state_vector bias_sd sm_sd (p_b p) (msub (p_T p) ident3)) reset = Some st /\
+             get_estimates m st = Some (state_vector bias_sd sm_sd (p_b p) (msub (p_T p) ident3)) /\
+             correct_increments st dt (sim_row p Increment dt theta) = Some theta.
+Proof.
+  intros Hb Hsb Hse Hd. exists (mk_est (p_T p) (p_b p)).
+  split; [now apply (estimates_equal_parameters _ _ _ _ _ _ _ Hb)|]. split.
+  - rewrite (get_estimates_spec _ _ _ _ _ _ Hb), state_vector_val. f_equal.
+    apply map_ext_in. intros t Ht. apply read_mk_est.
+    pose proof (targets_valid bias_sd sm_sd) as Hv. rewrite Forall_forall in Hv. now apply Hv.
+  - destruct p as [T b n w]. cbn [p_T p_b] in *. now apply correct_sim_row.
+Qed.
+
+Lemma diffs_length ts : List.length (diffs ts) = pred (List.length ts).
+Proof.
+  induction ts as [|a [|b r] IH]; [reflexivity|reflexivity|].
+  change (diffs (a :: b :: r)) with ((b - a) :: diffs (b :: r)).
+  cbn [List.length]. rewrite IH. reflexivity.
+Qed.
+
+Lemma dt_raw_length ts : List.length (dt_raw ts) = List.length ts.
+Proof.
+  unfold dt_raw. destruct ts as [|a r]; [reflexivity|].
+  cbn [List.length]. rewrite diffs_length. reflexivity.
+Qed.
+
+Lemma dt_used_length ts dts : dt_used ts = Some dts -> List.length dts = List.length ts.
+Proof.
+  unfold dt_used. pose proof (dt_raw_length ts) as Hl.
+  destruct (dt_raw ts) as [|x [|d1 rest]]; try discriminate.
+  intro E. injection E as <-. cbn [List.length] in *. exact Hl.
+Qed.
+
+(** [correct_undoes_apply], a whole record with irregular time stamps *)
+Lemma correct_undoes_apply_series T b n w ts rs dts out :
+  det3 T <> 0 ->
+  dt_used ts = Some dts -> List.length rs = List.length ts ->
+  sim_apply (mk_params T b n w) Increment ts rs = Some out ->
+  map (fun d_o => correct_increments (mk_est T b) (fst d_o) (snd d_o)) (combine dts out) = map Some rs.
+Proof.
+  intros Hd Hdt Hl. unfold sim_apply. rewrite Hdt. intro E. injection E as <-.
+  apply dt_used_length in Hdt. rewrite <- Hdt in Hl. clear Hdt ts.
+  revert rs Hl. induction dts as [|dt dts IH]; intros [|r rs] Hl; try discriminate; [reflexivity|].
+  cbn [combine map fst snd]. pose proof (correct_sim_row T b dt r n w Hd) as Hc.
+  unfold sim_row in Hc. cbn [p_T p_b] in Hc. rewrite Hc. f_equal.
+  apply IH. cbn in Hl. lia.
+Qed.
+
+(* ------------------------------------------------------------------ *)
+(** * Parameters drawn by from_EstimationModel are named like the model's states *)
+
+Lemma Qcpos_false_nonneg x : 0 <= x -> Qcpos x = false -> x = 0.
+Proof.
+  intros Hx Hp. apply Qcle_antisym; [|exact Hx].
+  apply Qcnonpos_spec. rewrite Qcnonpos_negb, Hp. reflexivity.
+Qed.
+
+Lemma Qcnz_spec x : Qcnz x = true <-> x <> 0.
+Proof. unfold Qcnz, Qcneq. destruct (Qc_eq_dec x 0); split; congruence. Qed.
+
+Lemma Qcmult_nz x y : x <> 0 -> y <> 0 -> x * y <> 0.
+Proof. intros Hx Hy E. apply Qcmult_integral in E. tauto. Qed.
+
+Lemma Qcpos_nz x : Qcpos x = true -> x <> 0.
+Proof. intros Hp E. subst. discriminate. Qed.
+
+Lemma get3_mul3 a u w : get3 a (mul3 u w) = get3 a u * get3 a w.
+Proof. destruct a as [|[|a]]; reflexivity. Qed.
+
+Lemma get33_from_model bias_sd noise bias_walk sm_sd zT zb o i :
+  (o < 3)%nat -> (i < 3)%nat ->
+  get33 o i (p_T (from_model bias_sd noise bias_walk sm_sd zT zb))
+  = delta o i + get33 o i sm_sd * get33 o i zT.
+Proof.
+  intros Ho Hi. destruct o as [|[|[|o]]]; try lia; destruct i as [|[|[|i]]]; try lia; reflexivity.
+Qed.
+
+Lemma from_model_masks bias_sd noise bias_walk sm_sd zT zb :
+  build bias_sd noise bias_walk sm_sd <> None ->
+  nonneg3 bias_sd -> nonneg3 bias_walk -> nonneg33 sm_sd -> nonzero3 zb -> nonzero33 zT ->
+  let p := from_model bias_sd noise bias_walk sm_sd zT zb in
+  (forall a, (a < 3)%nat -> col_bias_en p a = Qcpos (get3 a bias_sd)) /\
+  (forall o i, (o < 3)%nat -> (i < 3)%nat -> col_sm_en p (o, i) = Qcpos (get33 o i sm_sd)).
+Proof.
+  intros Hb Hnb Hnw Hns Hzb HzT p. split.
+  - intros a Ha. unfold col_bias_en, p. cbn [from_model p_b p_walk]. rewrite get3_mul3.
+    destruct (Qcpos (get3 a bias_sd)) eqn:Ep.
+    + apply orb_true_iff. left. apply Qcnz_spec. apply Qcmult_nz; [now apply Qcpos_nz|now apply Hzb].
+    + rewrite (Qcpos_false_nonneg _ (Hnb a Ha) Ep).
+      assert (Hw : get3 a bias_walk = 0).
+      { apply Qcpos_false_nonneg; [now apply Hnw|].
+        destruct (Qcpos (get3 a bias_walk)) eqn:Ew; [|reflexivity]. exfalso. apply Hb.
+        apply walk_requires_bias. exists a. split; [exact Ha|]. split; [now apply Qcpos_spec|].
+        apply Qcnonpos_spec. rewrite Qcnonpos_negb, Ep. reflexivity. }
+      rewrite Hw. apply orb_false_iff. split; apply not_true_iff_false; rewrite Qcnz_spec; intro X; apply X; ring.
+  - intros o i Ho Hi. unfold col_sm_en. cbn [fst snd]. unfold p. rewrite get33_from_model by assumption.
+    destruct (Qcpos (get33 o i sm_sd)) eqn:Ep.
+    + unfold Qcneq. destruct (Qc_eq_dec _ _) as [E|_]; [|reflexivity]. exfalso.
+      assert (X : get33 o i sm_sd * get33 o i zT = 0).
+      { replace (get33 o i sm_sd * get33 o i zT)
+          with (delta o i + get33 o i sm_sd * get33 o i zT - delta o i) by ring. rewrite E. ring. }
+      revert X. apply Qcmult_nz; [now apply Qcpos_nz|now apply HzT].
+    + rewrite (Qcpos_false_nonneg _ (Hns o i Ho Hi) Ep). apply Qcneq_spec. ring.
+Qed.
+
+(** [names_agree] for parameters generated from the model itself *)
+Lemma names_agree_from_model bias_sd noise bias_walk sm_sd m zT zb :
+  build bias_sd noise bias_walk sm_sd = Some m ->
+  nonneg3 bias_sd -> nonneg3 bias_walk -> nonneg33 sm_sd -> nonzero3 zb -> nonzero33 zT ->
+  let p := from_model bias_sd noise bias_walk sm_sd zT zb in
+  columns p = states m /\
+  df_row p = state_vector bias_sd sm_sd (p_b p) (msub (p_T p) ident3) /\
+  bias_supported bias_sd (p_b p) /\ sm_supported sm_sd (msub (p_T p) ident3).
+Proof.
+  intros Hb Hnb Hnw Hns Hzb HzT p.
+  assert (Hb' : build bias_sd noise bias_walk sm_sd <> None) by congruence.
+  destruct (from_model_masks _ _ _ _ zT zb Hb' Hnb Hnw Hns Hzb HzT) as [H1 H2]. fold p in H1, H2.
+  destruct (columns_states _ _ _ _ _ p Hb H1 H2) as [Hc Hd].
+  split; [exact Hc|]. split; [exact Hd|]. split.
+  - intros a Ha Ep. unfold p. cbn [from_model p_b]. rewrite get3_mul3.
+    rewrite (Qcpos_false_nonneg _ (Hnb a Ha) Ep). ring.
+  - intros o i Ho Hi Ep. rewrite msub_ident_get by assumption. unfold p.
+    rewrite get33_from_model by assumption. rewrite (Qcpos_false_nonneg _ (Hns o i Ho Hi) Ep). ring.
+Qed.
+
+(* ------------------------------------------------------------------ *)
+(** * The complete simulator: square roots, streams, variances *)
+
+Lemma qsqrt_spec x s : qsqrt x = Some s -> s * s = x /\ 0 <= s.
+Proof.
+  unfold qsqrt. destruct x as [[n d] Hc]. cbn [this Qnum Qden].
+  destruct ((0 <=? n)%Z && (Z.sqrt n * Z.sqrt n =? n)%Z
+            && (Z.sqrt (Z.pos d) * Z.sqrt (Z.pos d) =? Z.pos d)%Z) eqn:E; [|discriminate].
+  apply andb_prop in E. destruct E as [E E3]. apply andb_prop in E. destruct E as [E1 E2].
+  apply Z.leb_le in E1. apply Z.eqb_eq in E2, E3. intro H. injection H as <-.
+  set (rn := Z.sqrt n) in *. set (rd := Z.sqrt (Z.pos d)) in *.
+  assert (Hrd : (0 < rd)%Z).
+  { pose proof (Z.sqrt_nonneg (Z.pos d)) as Hnn. fold rd in Hnn.
+    destruct (Z.eq_dec rd 0) as [E0|]; [rewrite E0 in E3; discriminate|lia]. }
+  split.
+  - apply Qc_is_canon. cbn [this Qcmult Q2Qc]. rewrite Qred_correct.
+    rewrite !Qred_correct. unfold Qeq, Qmult. cbn [Qnum Qden].
+    rewrite Pos2Z.inj_mul. change (Z.pos (Pos.sqrt d)) with rd. rewrite E2, E3. reflexivity.
+  - unfold Qcle. cbn [this Q2Qc]. rewrite !Qred_correct. unfold Qle. cbn [Qnum Qden].
+    pose proof (Z.sqrt_nonneg n). fold rn in H. lia.
+Qed.
+
+Lemma opt_all_Forall2 {A} (l : list (option A)) r :
+  opt_all l = Some r -> Forall2 (fun o x => o = Some x) l r.
+Proof.
+  revert r. induction l as [|[x|] l IH]; intros r E; cbn in E.
+  - injection E as <-. constructor.
+  - destruct (opt_all l) as [r'|]; [|discriminate]. injection E as <-. constructor; auto.
+  - discriminate.
+Qed.
+
+(** every element of [sqrt_raw ts] is the non-negative square root of the corresponding dt *)
+Lemma sqrt_raw_spec ts sraw :
+  sqrt_raw ts = Some sraw -> Forall2 (fun d s => s * s = d /\ 0 <= s) (dt_raw ts) sraw.
+Proof.
+  unfold sqrt_raw. intro E. apply opt_all_Forall2 in E.
+  remember (dt_raw ts) as l eqn:El. clear El. revert sraw E.
+  induction l as [|d l IH]; intros sraw E; inversion E; subst; constructor.
+  - now apply qsqrt_spec.
+  - now apply IH.
+Qed.
+
+(** with both random streams equal to zero the complete simulator is the noise-free one *)
+Lemma sim_full_row_zero p ty dt s r :
+  sim_full_row p ty dt s r (p_b p) zero3 = sim_row p ty dt r.
+Proof.
+  unfold sim_full_row, sim_row, bias_term.
+  destruct ty, (mv3 (p_T p) r) as [x y z], (p_b p) as [b0 b1 b2], (p_noise p) as [n0 n1 n2];
+    unfold add3, mul3, scale3, zero3; cbn [c0 c1 c2]; f_equal; ring.
+Qed.
+
+(** the noise sample enters output row k linearly with coefficient noise * dt**(-/+ 1/2) *)
+Lemma sim_full_row_noise p ty dt s r bias n :
+  sim_full_row p ty dt s r bias n
+  = add3 (sim_full_row p ty dt s r bias zero3) (mul3 (scale3 (p_noise p) (noise_coef ty s)) n).
+Proof.
+  unfold sim_full_row.
+  destruct (add3 (mv3 (p_T p) r) (bias_term ty dt bias)) as [x y z],
+    (scale3 (p_noise p) (noise_coef ty s)) as [k0 k1 k2], n as [n0 n1 n2].
+  unfold add3, mul3, zero3; cbn [c0 c1 c2]; f_equal; ring.
+Qed.
+
+(** the bias enters with gain 1 (rate) or dt (increment) *)
+Lemma sim_full_row_bias p ty dt s r bias bias' n :
+  sub3 (sim_full_row p ty dt s r bias' n) (sim_full_row p ty dt s r bias n)
+  = bias_term ty dt (sub3 bias' bias).
+Proof.
+  unfold sim_full_row, bias_term.
+  destruct ty, (mv3 (p_T p) r) as [x y z], bias as [b0 b1 b2], bias' as [b0' b1' b2'],
+    (mul3 (scale3 (p_noise p) _) n) as [k0 k1 k2];
+    unfold add3, sub3, scale3; cbn [c0 c1 c2]; f_equal; ring.
+Qed.
+
+Lemma cumsum3_step acc l k x y z :
+  nth_error (cumsum3 acc l) k = Some x -> nth_error (cumsum3 acc l) (S k) = Some y ->
+  nth_error l (S k) = Some z -> y = add3 x z.
+Proof.
+  revert acc k. induction l as [|a l IH]; intros acc k Hx Hy Hz; [destruct k; discriminate|].
+  cbn [cumsum3] in *. destruct k as [|k].
+  - cbn in Hx. injection Hx as <-. cbn [nth_error] in Hy, Hz.
+    destruct l as [|a' l]; [discriminate|]. cbn in Hy, Hz. congruence.
+  - cbn [nth_error] in Hx, Hy, Hz. now apply (IH _ _ Hx Hy Hz).
+Qed.
+
+Lemma cumsum3_length acc l : List.length (cumsum3 acc l) = List.length l.
+Proof. revert acc. induction l as [|a l IH]; intro acc; cbn; [reflexivity|now rewrite IH]. Qed.
+
+(** the simulated bias is the constant bias plus a random walk whose k-th increment is
+    bias_walk * sqrt(dt_raw[k]) * W[k] *)
+Lemma bias_series_step p sraw W k b0 b1 w s :
+  nth_error (bias_series p sraw W) k = Some b0 ->
+  nth_error (bias_series p sraw W) (S k) = Some b1 ->
+  nth_error W (S k) = Some w -> nth_error sraw (S k) = Some s ->
+  sub3 b1 b0 = mul3 (p_walk p) (scale3 w s).
+Proof.
+  unfold bias_series. rewrite !nth_error_map.
+  destruct (nth_error (cumsum3 zero3 (walk_steps sraw W)) k) as [x|] eqn:Ex; [|discriminate].
+  destruct (nth_error (cumsum3 zero3 (walk_steps sraw W)) (S k)) as [y|] eqn:Ey; [|discriminate].
+  cbn [option_map]. intros E0 E1 Hw Hs. injection E0 as <-. injection E1 as <-.
+  assert (Hz : nth_error (walk_steps sraw W) (S k) = Some (scale3 w s)).
+  { unfold walk_steps. rewrite nth_error_map.
+    assert (Hc : nth_error (combine W sraw) (S k) = Some (w, s)).
+    { clear -Hw Hs. revert W sraw Hw Hs. generalize (S k) as j.
+      induction j as [|j IH]; intros [|a W] [|c sraw] Hw Hs; try discriminate; cbn in *.
+      - congruence.
+      - now apply IH. }
+    rewrite Hc. reflexivity. }
+  rewrite (cumsum3_step _ _ _ _ _ _ Ex Ey Hz).
+  destruct (p_b p) as [p0 p1 p2], (p_walk p) as [w0 w1 w2], x as [x0 x1 x2], (scale3 w s) as [z0 z1 z2].
+  unfold sub3, add3, mul3. cbn [c0 c1 c2]. f_equal; ring.
+Qed.
+
+(** the first bias sample is the constant bias: dt_raw[0] = 0 *)
+Lemma bias_series_first p ts sraw W b0 :
+  sqrt_raw ts = Some sraw -> nth_error (bias_series p sraw W) 0 = Some b0 -> b0 = p_b p.
+Proof.
+  intros Hs Hb. apply sqrt_raw_spec in Hs. unfold dt_raw in Hs.
+  destruct ts as [|t ts]; inversion Hs as [|d s l l' [Hss _] Hrest]; subst.
+  - unfold bias_series, walk_steps in Hb. destruct W; discriminate.
+  - assert (s = 0).
+    { apply Qcmult_integral in Hss. tauto. }
+    subst s. unfold bias_series, walk_steps in Hb. destruct W as [|w W]; [discriminate|].
+    cbn in Hb. injection Hb as <-.
+    destruct (p_b p) as [p0 p1 p2], (p_walk p) as [w0 w1 w2], w as [x0 x1 x2].
+    unfold add3, mul3, scale3, zero3. cbn [c0 c1 c2]. f_equal; ring.
+Qed.
+
+(** [variances_agree], simulator side: squared coefficients of the unit-variance samples.
+    [s] is the square root of the sampling interval [dt] (from [qsqrt]). *)
+Lemma sim_variances (noise_a walk_a : Qc) dt s :
+  s * s = dt -> dt <> 0 ->
+  (* rate sensor: reading noise integrated over dt *)
+  sq (noise_a * noise_coef Rate s * dt) = sq noise_a * dt /\
+  (* increment sensor: noise of one increment *)
+  sq (noise_a * noise_coef Increment s) = sq noise_a * dt /\
+  (* the rate reading itself: PSD noise^2 sampled at 1/dt *)
+  sq (noise_a * noise_coef Rate s) = sq noise_a / dt /\
+  (* bias increment over dt *)
+  sq (walk_a * s) = sq walk_a * dt.
+Proof.
+  intros Hs Hd. subst dt. assert (Hs : s <> 0) by (intro E; apply Hd; rewrite E; ring).
+  unfold sq, noise_coef. repeat split; field; auto.
+Qed.
+
+(* ------------------------------------------------------------------ *)
+(** * The covariance rates the estimator assumes: J v^2 J^T and G q^2 G^T *)
+
+Lemma fold_sum_map_seq {A} (l : list A) (g : nat -> Qc) (f : A -> Qc) :
+  (forall s t, nth_error l s = Some t -> g s = f t) ->
+  fold_right Qcplus 0 (map g (seq 0 (List.length l))) = fold_right Qcplus 0 (map f l).
+Proof. intro Hg. f_equal. apply map_seq_nth. intros s t. cbn. apply Hg. Qed.
+
+Lemma gram_indexed {A} (L : list A) (h : A -> nat) (f : A -> Qc) r r' :
+  gram (indexed 0 (map h L)) (map f L) r r'
+  = fold_right Qcplus 0
+      (map (fun x => ind (Nat.eqb (h x) r) * sq (f x) * ind (Nat.eqb (h x) r')) L).
+Proof.
+  unfold gram. rewrite map_length. apply fold_sum_map_seq. intros s t Hs.
+  rewrite !has_entry_indexed, nth_error_map, Hs. cbn [option_map].
+  rewrite (nth_error_nth (map f L) s 0 (x := f t)); [reflexivity|].
+  rewrite nth_error_map, Hs. reflexivity.
+Qed.
+
+Lemma sum_zero {A} (L : list A) (g : A -> Qc) :
+  (forall x, In x L -> g x = 0) -> fold_right Qcplus 0 (map g L) = 0.
+Proof.
+  induction L as [|x L IH]; intro Hz; [reflexivity|]. cbn [map fold_right].
+  rewrite (Hz x (or_introl eq_refl)), IH; [ring|]. intros y Hy. apply Hz. now right.
+Qed.
+
+Lemma gram_sum_diag {A} (L : list A) (h : A -> nat) (f : A -> Qc) a :
+  NoDup (map h L) -> In a L ->
+  fold_right Qcplus 0 (map (fun x => ind (Nat.eqb (h x) (h a)) * sq (f x) * ind (Nat.eqb (h x) (h a))) L)
+  = sq (f a).
+Proof.
+  induction L as [|x L IH]; intros Hnd Hin; [contradiction|].
+  cbn [map] in Hnd. inversion Hnd as [|? ? Hnot Hnd']; subst. cbn [map fold_right].
+  destruct Hin as [->|Hin].
+  - rewrite Nat.eqb_refl. cbn [ind]. rewrite sum_zero; [ring|].
+    intros y Hy. destruct (Nat.eqb (h y) (h a)) eqn:E; [|cbn; ring].
+    apply Nat.eqb_eq in E. exfalso. apply Hnot. rewrite <- E. now apply in_map.
+  - rewrite (IH Hnd' Hin).
+    destruct (Nat.eqb (h x) (h a)) eqn:E; [|cbn; ring].
+    apply Nat.eqb_eq in E. exfalso. apply Hnot. rewrite E. now apply in_map.
+Qed.
+
+Lemma gram_sum_off {A} (L : list A) (h : A -> nat) (f : A -> Qc) r r' :
+  r <> r' ->
+  fold_right Qcplus 0 (map (fun x => ind (Nat.eqb (h x) r) * sq (f x) * ind (Nat.eqb (h x) r')) L) = 0.
+Proof.
+  intro Hne. apply sum_zero. intros x _.
+  destruct (Nat.eqb (h x) r) eqn:E1, (Nat.eqb (h x) r') eqn:E2; cbn; try ring.
+  apply Nat.eqb_eq in E1, E2. congruence.
+Qed.
+
+Lemma gram_sum_out {A} (L : list A) (h : A -> nat) (f : A -> Qc) r r' :
+  (forall x, In x L -> h x <> r) ->
+  fold_right Qcplus 0 (map (fun x => ind (Nat.eqb (h x) r) * sq (f x) * ind (Nat.eqb (h x) r')) L) = 0.
+Proof.
+  intro Hout. apply sum_zero. intros x Hx.
+  destruct (Nat.eqb (h x) r) eqn:E1; [|cbn; ring]. apply Nat.eqb_eq in E1. exfalso. exact (Hout x Hx E1).
+Qed.
+
+Lemma NoDup_map_inj_in {A B} (f : A -> B) l :
+  (forall x y, In x l -> In y l -> f x = f y -> x = y) -> NoDup l -> NoDup (map f l).
+Proof.
+  intros Hinj Hnd. induction Hnd as [|x l Hx Hnd IH]; cbn; constructor.
+  - intro Hin. apply in_map_iff in Hin. destruct Hin as (y & E & Hy).
+    apply Hx. rewrite <- (Hinj y x); auto; [now right|now left].
+  - apply IH. intros y z Hy Hz. apply Hinj; now right.
+Qed.
+
+Lemma enn_NoDup noise : NoDup (enn noise).
+Proof. unfold enn. apply NoDup_filter, seq_NoDup. Qed.
+
+Lemma enw_NoDup bias_sd bias_walk : NoDup (enw bias_sd bias_walk).
+Proof. unfold enw, enb. apply NoDup_filter, NoDup_filter, seq_NoDup. Qed.
+
+Lemma bias_rank_inj bias_sd a a' :
+  In a (enb bias_sd) -> In a' (enb bias_sd) -> bias_rank bias_sd a = bias_rank bias_sd a' -> a = a'.
+Proof.
+  intros Ha Ha' E. apply bias_rank_nth in Ha, Ha'. rewrite E in Ha. congruence.
+Qed.
+
+(** J v^2 J^T = diag(noise_a^2 over the enabled axes) *)
+Lemma JvJ_spec bias_sd noise bias_walk sm_sd m :
+  build bias_sd noise bias_walk sm_sd = Some m ->
+  (forall a, (a < 3)%nat -> 0 < get3 a noise -> JvJ m a a = sq (get3 a noise)) /\
+  (forall a a', a <> a' -> JvJ m a a' = 0) /\
+  (forall a a', ~ ((a < 3)%nat /\ 0 < get3 a noise) -> JvJ m a a' = 0).
+Proof.
+  intro Hb. destruct (build_spec _ _ _ _ _ Hb) as (_ & _ & _ & _ & _ & _ & Hv & _ & _ & HJ & _).
+  rewrite <- (map_id (enn noise)) in HJ. unfold JvJ. rewrite HJ, Hv.
+  repeat split.
+  - intros a Ha Hn. rewrite gram_indexed.
+    apply (gram_sum_diag (enn noise) (fun x => x) (fun a => get3 a noise) a).
+    + rewrite map_id. apply enn_NoDup.
+    + apply enn_In. tauto.
+  - intros a a' Hne. rewrite gram_indexed. now apply gram_sum_off.
+  - intros a a' Hna. rewrite gram_indexed. apply gram_sum_out.
+    intros x Hx E. subst x. apply Hna. now apply enn_In.
+Qed.
+
+(** G q^2 G^T = walk_a^2 at the diagonal position of every walking bias state, 0 elsewhere *)
+Lemma GqG_spec bias_sd noise bias_walk sm_sd m :
+  build bias_sd noise bias_walk sm_sd = Some m ->
+  (forall a, (a < 3)%nat -> 0 < get3 a bias_sd -> 0 < get3 a bias_walk ->
+     nth_error (states m) (bias_rank bias_sd a) = Some (bias_name a) /\
+     GqG m (bias_rank bias_sd a) (bias_rank bias_sd a) = sq (get3 a bias_walk)) /\
+  (forall k k', k <> k' -> GqG m k k' = 0) /\
+  (forall k k', (forall a, nth_error (states m) k = Some (bias_name a) -> ~ 0 < get3 a bias_walk) ->
+     GqG m k k' = 0).
+Proof.
+  intro Hb. destruct (build_spec _ _ _ _ _ Hb) as (_ & _ & _ & _ & _ & Hq & _ & HG & _).
+  unfold GqG. rewrite HG, Hq. repeat split.
+  - apply (bias_state_position _ _ _ _ _ _ Hb). apply enb_In. tauto.
+  - rewrite gram_indexed.
+    apply (gram_sum_diag (enw bias_sd bias_walk) (bias_rank bias_sd) (fun a => get3 a bias_walk) a).
+    + apply NoDup_map_inj_in; [|apply enw_NoDup].
+      intros x y Hx Hy. apply bias_rank_inj; eapply enw_incl_enb; eauto.
+    + apply enw_In. tauto.
+  - intros k k' Hne. rewrite gram_indexed. now apply gram_sum_off.
+  - intros k k' Hk. rewrite gram_indexed. apply gram_sum_out.
+    intros x Hx E. apply (Hk x).
+    + rewrite <- E. apply (bias_state_position _ _ _ _ _ _ Hb). eapply enw_incl_enb; eauto.
+    + apply enw_In in Hx. tauto.
+Qed.
+
+(** [variances_agree]: what the simulator produces over one sampling interval [dt] has exactly
+    the variance the estimator's noise model gives over [dt]:
+      J v^2 J^T * dt  (white noise integrated over dt, both sensor types)
+      G q^2 G^T * dt  (bias increment over dt). *)
+Lemma variances_agree bias_sd noise bias_walk sm_sd m dt s a :
+  build bias_sd noise bias_walk sm_sd = Some m ->
+  nonneg3 noise -> nonneg3 bias_walk ->
+  s * s = dt -> dt <> 0 -> (a < 3)%nat ->
+  sq (get3 a noise * noise_coef Rate s * dt) = JvJ m a a * dt /\
+  sq (get3 a noise * noise_coef Increment s) = JvJ m a a * dt /\
+  (0 < get3 a bias_sd ->
+   sq (get3 a bias_walk * s) = GqG m (bias_rank bias_sd a) (bias_rank bias_sd a) * dt).
+Proof.
+  intros Hb Hnn Hnw Hs Hd Ha.
+  destruct (sim_variances (get3 a noise) (get3 a bias_walk) dt s Hs Hd) as (V1 & V2 & _ & V4).
+  destruct (JvJ_spec _ _ _ _ _ Hb) as (J1 & _ & J3).
+  destruct (GqG_spec _ _ _ _ _ Hb) as (G1 & _ & G3).
+  rewrite V1, V2, V4.
+  assert (EJ : JvJ m a a = sq (get3 a noise)).
+  { destruct (Qcpos (get3 a noise)) eqn:Ep.
+    - apply J1; [exact Ha|now apply Qcpos_spec].
+    - rewrite (Qcpos_false_nonneg _ (Hnn a Ha) Ep). rewrite J3; [reflexivity|].
+      intros [_ H0]. apply Qcpos_spec in H0. congruence. }
+  rewrite EJ. repeat split. intro Hbs.
+  destruct (Qcpos (get3 a bias_walk)) eqn:Ep.
+  - apply Qcpos_spec in Ep. destruct (G1 a Ha Hbs Ep) as [_ ->]. reflexivity.
+  - rewrite (Qcpos_false_nonneg _ (Hnw a Ha) Ep). rewrite G3; [reflexivity|].
+    intros a' Hn H0.
+    assert (Hin : In a (enb bias_sd)) by (apply enb_In; tauto).
+    rewrite (bias_state_position _ _ _ _ _ _ Hb Hin) in Hn.
+    assert (Hn' : bias_name a = bias_name a') by congruence. clear Hn. rename Hn' into Hn.
+    assert (a = a').
+    { assert (Hv : valid_target (TBias a)) by exact Ha.
+      pose proof (name_of_bias (TBias a) a' Hv Hn) as E. congruence. }
+    subst a'. apply Qcpos_spec in H0. congruence.
+Qed.
+
+Lemma add3_zero u : add3 u zero3 = u.
+Proof. destruct u as [x y z]. unfold add3, zero3. cbn [c0 c1 c2]. f_equal; ring. Qed.
+
+Lemma scale3_zero s : scale3 zero3 s = zero3.
+Proof. unfold scale3, zero3. cbn [c0 c1 c2]. f_equal; ring. Qed.
+
+Lemma cumsum3_zeros acc l :
+  Forall (fun x => x = zero3) l -> cumsum3 acc l = map (fun _ => acc) l.
+Proof.
+  intro Hz. revert acc. induction Hz as [|x l -> Hz IH]; intro acc; [reflexivity|].
+  cbn [cumsum3 map]. rewrite add3_zero, IH. reflexivity.
+Qed.
+
+Lemma bias_series_zero p sraw W :
+  Forall (fun x => x = zero3) W -> List.length W = List.length sraw ->
+  bias_series p sraw W = map (fun _ => p_b p) sraw.
+Proof.
+  intros Hz Hl. unfold bias_series.
+  assert (Hw : Forall (fun x => x = zero3) (walk_steps sraw W)).
+  { unfold walk_steps. apply Forall_forall. intros x Hx. apply in_map_iff in Hx.
+    destruct Hx as ([w s] & <- & Hin). apply in_combine_l in Hin. rewrite Forall_forall in Hz.
+    cbn [fst snd]. rewrite (Hz w Hin). apply scale3_zero. }
+  rewrite (cumsum3_zeros _ _ Hw), map_map. unfold walk_steps. rewrite map_map.
+  clear Hw Hz. revert sraw Hl. induction W as [|w W IH]; intros [|s sraw] Hl; try discriminate; [reflexivity|].
+  cbn [combine map]. f_equal.
+  - destruct (p_b p) as [x y z], (p_walk p) as [a b c]. unfold add3, mul3, zero3. cbn [c0 c1 c2]. f_equal; ring.
+  - apply IH. cbn in Hl. lia.
+Qed.
+
+Lemma sim_rows_zero p ty dts : forall sus rs bs ns,
+  Forall (fun b => b = p_b p) bs -> Forall (fun x => x = zero3) ns ->
+  List.length sus = List.length dts -> List.length bs = List.length dts ->
+  List.length ns = List.length dts ->
+  sim_rows p ty dts sus rs bs ns = map (fun dr => sim_row p ty (fst dr) (snd dr)) (combine dts rs).
+Proof.
+  induction dts as [|dt dts IH]; intros sus rs bs ns Hb Hn L1 L2 L3; [reflexivity|].
+  destruct sus as [|s sus]; [discriminate|]. destruct bs as [|b bs]; [discriminate|].
+  destruct ns as [|n ns]; [discriminate|]. destruct rs as [|r rs]; [reflexivity|].
+  inversion Hb as [|? ? -> Hb']; subst. inversion Hn as [|? ? -> Hn']; subst.
+  cbn [sim_rows combine map fst snd]. rewrite sim_full_row_zero. f_equal.
+  apply IH; auto; cbn in *; lia.
+Qed.
+
+Lemma Forall2_length' {A B} (R : A -> B -> Prop) l l' : Forall2 R l l' -> List.length l = List.length l'.
+Proof. induction 1; cbn; lia. Qed.
+
+Lemma first_from_second_length l : List.length (first_from_second l) = List.length l.
+Proof. destruct l as [|a [|b r]]; reflexivity. Qed.
+
+(** with both random streams identically zero, the complete simulator (the one tied to the code
+    by the correspondence check) is the noise-free simulator used in [correct_undoes_apply] *)
+Lemma sim_full_noise_free p ty ts rs W N :
+  sqrt_raw ts <> None ->
+  Forall (fun x => x = zero3) W -> Forall (fun x => x = zero3) N ->
+  List.length W = List.length ts -> List.length N = List.length ts ->
+  sim_full p ty ts rs W N = sim_apply p ty ts rs.
+Proof.
+  intros Hs HW HN LW LN. unfold sim_full, sim_apply.
+  destruct (dt_used ts) as [dts|] eqn:Ed; [|reflexivity].
+  destruct (sqrt_raw ts) as [sraw|] eqn:Es; [|contradiction]. f_equal.
+  pose proof (dt_used_length _ _ Ed) as Ld.
+  pose proof (Forall2_length' _ _ _ (sqrt_raw_spec _ _ Es)) as Lr. rewrite dt_raw_length in Lr.
+  rewrite bias_series_zero by (auto; lia).
+  apply sim_rows_zero; auto.
+  - apply Forall_forall. intros b Hb. apply in_map_iff in Hb. now destruct Hb as (? & <- & _).
+  - rewrite first_from_second_length. lia.
+  - rewrite map_length. lia.
+  - lia.
 Qed.
